@@ -121,8 +121,8 @@ PROPS["C01"] = dict(
 
 PROPS["C13"] = dict(
     level="proof",
-    verus=["c13_redirect", "c04_partition", "c18_gate"],
-    labels=["C13.", "C04.new.redirects", "C04.new.filters", "C06.add_filter.", "C18.perm.is_default"] + MASK,
+    verus=["c13_redirect", "c04_partition", "c18_gate", "c05_optimizer"],
+    labels=["C13.", "C04.new.redirects", "C04.new.filters", "C06.add_filter.", "C18.perm.is_default", "C05.select."] + MASK,
     kani=[],
     trusted=["memchr::memrchr = last occurrence (shim)", "<i32 as FromStr>::from_str uninterpreted", "[T]::contains = membership",
              "name/alias lookup and data-URL formatting in ResourceStorage are uninterpreted / lifted"],
